@@ -187,4 +187,89 @@ Section Proofs.
     - destruct (concat ps) as [|c [|f r]]; [congruence|discriminate|now apply W].
     - congruence.
   Qed.
+
+  (* ---- data after the end marker: multi-member gzip, trailing garbage ----
+     zlib law (sampled against the real library on every run): once the end
+     marker has been seen, further input is swallowed - no output, no error,
+     eof stays set (the bytes go to decompressobj.unused_data). *)
+  Definition engaged (k : kind) (s : list N) : bool :=
+    match k, s with
+    | KGzip, b :: _ => b =? 31
+    | KDeflate, _ :: _ :: _ => true
+    | _, _ => false
+    end.
+
+  Section AfterEof.
+    Hypothesis H_after_eof : forall z b, zeof z = true ->
+      exists z', zstep z b = Some (z', []) /\ zeof z' = true /\ zfl z' = zfl z.
+
+    Lemma zfeed_after_eof junk : forall z, zeof z = true ->
+      exists z', zfeed z junk = Some (z', []) /\ zeof z' = true /\ zfl z' = zfl z.
+    Proof.
+      induction junk as [|b junk IH]; intros z Hz; cbn [Decomp.zfeed].
+      - now exists z.
+      - destruct (H_after_eof z b Hz) as (z1 & S1 & E1 & F1). rewrite S1.
+        destruct (IH z1 E1) as (z2 & S2 & E2 & F2). rewrite S2.
+        exists z2. repeat split; [assumption|congruence].
+    Qed.
+
+    Lemma whole_junk w s junk out : whole w s = Some out -> whole w (s ++ junk) = Some out.
+    Proof.
+      unfold Decomp.whole. rewrite zfeed_app.
+      destruct (zfeed (zinit w) s) as [[z o]|]; [|discriminate].
+      destruct (zeof z) eqn:Ez; [|discriminate]. intros [= <-].
+      destruct (zfeed_after_eof junk z Ez) as (z' & S & E & F). rewrite S, E, F.
+      now rewrite app_nil_r.
+    Qed.
+
+    Theorem after_end_marker_ignored k s junk out :
+      engaged k s = true -> reference k s = Some out -> reference k (s ++ junk) = Some out.
+    Proof.
+      destruct k; cbn [engaged].
+      - destruct s as [|b r]; [discriminate|]. intros Hb. apply N.eqb_eq in Hb. subst b.
+        change (whole W31 (31 :: r) = Some out -> whole W31 ((31 :: r) ++ junk) = Some out).
+        apply whole_junk.
+      - destruct s as [|c [|f r]]; try discriminate. intros _.
+        change (whole (if is_zlib_header c f then W15 else WRaw) (c :: f :: r) = Some out ->
+                whole (if is_zlib_header c f then W15 else WRaw) ((c :: f :: r) ++ junk) = Some out).
+        apply whole_junk.
+      - destruct s; discriminate.
+    Qed.
+
+    Theorem run_ignores_data_after_end_marker k ps s junk out :
+      engaged k s = true -> Forall (fun p => p <> []) ps -> concat ps = s ++ junk ->
+      reference k s = Some out -> run k ps = Some out.
+    Proof.
+      intros He Hp Hc Hr. rewrite run_is_reference by assumption. rewrite Hc.
+      now apply after_end_marker_ignored.
+    Qed.
+  End AfterEof.
 End Proofs.
+
+(* ---- the zlib-or-raw decision: which raw deflate streams are taken for zlib ----
+   A two-byte prefix passes is_zlib_header only if, read as the start of a raw
+   deflate stream, it opens a NON-FINAL STORED block (BFINAL = 0, BTYPE = 00)
+   whose first padding bit is 1.  No encoder that pads with zero bits (zlib
+   does) produces such a stream; an adversarial server can. *)
+Lemma zlib_header_as_raw_deflate c f :
+  is_zlib_header c f = true -> N.land c 7 = 0 /\ N.testbit c 3 = true.
+Proof.
+  unfold is_zlib_header. rewrite !andb_true_iff, N.eqb_eq. intros [[[H _] _] _].
+  assert (E7 : N.land c 7 = N.land (N.land c 15) 7) by (rewrite <- N.land_assoc; reflexivity).
+  assert (E3 : N.testbit c 3 = N.testbit (N.land c 15) 3).
+  { rewrite N.land_spec. change (N.testbit 15 3) with true. now rewrite andb_true_r. }
+  rewrite E7, E3, H. split; reflexivity.
+Qed.
+
+(* FDICT (preset dictionary) never selects the zlib decoder: such a stream is
+   handed to the raw inflater (which fails on it, as the zlib decoder would for
+   lack of the dictionary) *)
+Lemma fdict_is_not_zlib_header c f : N.testbit f 5 = true -> is_zlib_header c f = false.
+Proof.
+  intros H. unfold is_zlib_header.
+  assert (E : N.land f 32 <> 0).
+  { intros E0. assert (T : N.testbit (N.land f 32) 5 = true).
+    { rewrite N.land_spec, H. reflexivity. }
+    rewrite E0 in T. discriminate. }
+  apply N.eqb_neq in E. rewrite E. now rewrite andb_false_r.
+Qed.
